@@ -182,3 +182,52 @@ Qed.
 Lemma c17_label_sb_spec : forall path v,
   c17_label_sb path v = true <-> exists base, path = base ++ s_colons ++ value_to_string v.
 Proof. intros. unfold c17_label_sb. apply suffixb_spec. Qed.
+
+(** ** Row labels under thread branches: the row of a case keeps the case's label
+    and path whatever the number of thread counts; with two or more it is a parent
+    with one leaf "t=N" per count below it, and the function receives the same
+    argument for every count. *)
+Lemma painted_run_threads : forall a id path arg first tcs,
+  painted (run_threads a id path arg first tcs) = map (fun tc => (2, join_path path (thread_name tc))) tcs.
+Proof.
+  intros a id path arg first tcs. revert first. induction tcs as [|tc tl IH]; intro first; [reflexivity|].
+  cbn [run_threads map]. unfold painted in *. rewrite flat_map_app, IH. destruct first, (is_bench a); reflexivity.
+Qed.
+
+Lemma painted_app : forall l1 l2, painted (l1 ++ l2) = painted l1 ++ painted l2.
+Proof. intros. unfold painted. apply flat_map_app. Qed.
+
+Lemma row_labels : forall tcs a id name path il arg,
+  painted (run_bench tcs a id name path il arg)
+  = match tcs with
+    | _ :: _ :: _ => (0, path) :: map (fun tc => (2, join_path path (thread_name tc))) tcs
+    | _ => [(2, path)]
+    end.
+Proof.
+  intros tcs a id name path il arg. unfold run_bench.
+  destruct tcs as [|t1 [|t2 tl]]; try (destruct (is_bench a); reflexivity).
+  rewrite !painted_app, painted_run_threads. cbn [painted flat_map app]. rewrite app_nil_r. reflexivity.
+Qed.
+
+Definition invoked_args (l : list action) : list (N * option (N * value)) :=
+  flat_map (fun x => match x with
+                     | AInvoke id _ arg => [(id, arg)]
+                     | AInvokeMore id _ arg _ => [(id, arg)]
+                     | _ => [] end) l.
+
+Lemma invoked_run_threads : forall a id path arg first tcs,
+  invoked_args (run_threads a id path arg first tcs) = map (fun _ => (id, arg)) tcs.
+Proof.
+  intros a id path arg first tcs. revert first. induction tcs as [|tc tl IH]; intro first; [reflexivity|].
+  cbn [run_threads map]. unfold invoked_args in *. rewrite flat_map_app, IH. destruct first, (is_bench a); reflexivity.
+Qed.
+
+Lemma same_argument_every_thread_count : forall tcs a id name path il arg,
+  invoked_args (run_bench tcs a id name path il arg)
+  = match tcs with _ :: _ :: _ => map (fun _ => (id, arg)) tcs | _ => [(id, arg)] end.
+Proof.
+  intros tcs a id name path il arg. unfold run_bench.
+  destruct tcs as [|t1 [|t2 tl]]; try (destruct (is_bench a); reflexivity).
+  unfold invoked_args. rewrite !flat_map_app. fold (invoked_args (run_threads a id path arg true (t1 :: t2 :: tl))).
+  rewrite invoked_run_threads. cbn [flat_map app]. rewrite app_nil_r. reflexivity.
+Qed.
